@@ -4,5 +4,8 @@ import Driver.Gossip
 
 def main (args : List String) : IO UInt32 :=
   Drv.mainWith [
-    ("seed", Drv.Seed.stream)
+    ("seed", Drv.Seed.stream),
+    ("leech", Drv.Leech.stream),
+    ("peerleech", Drv.PeerLeech.stream),
+    ("fetch", Drv.Fetch.stream)
   ] args
